@@ -173,6 +173,14 @@ def run(ctx):
     # a table-driven dispatch (`for cls, letter in TABLE: if isinstance(stmt, cls): return letter`) is the chain of its rows
     gst_u = unroll_constant_loops(gst, consts=class_table_resolver(enc, py.modules[AST].tree))
     for pth in PyEval().paths(gst_u):
+        # the polymorphic spelling: `return stmt.<attr>` under `isinstance(stmt, K)` - the letter of a class is the constant its
+        # class body (or the nearest base's) binds to <attr>
+        if pth.end[0] == 'return' and pth.end[1][0] == 'attr' and pth.end[1][1][0] in ('name', 'param', 'var', 'arg'):
+            tested = [c[2][1] if c[0] == 'isinstance' else c[2][1][1] for c, b in pth.conds if b is True and
+                      ((c[0] == 'isinstance' and c[2][0] == 'name') or (c[0] == 'call' and c[1] == ('name', 'isinstance') and len(c[2]) == 2 and c[2][1][0] == 'name'))]
+            if len(tested) == 1:
+                chain.append((tested[0], ('classattr', pth.end[1][2])))
+            continue
         if pth.end[0] != 'return' or pth.end[1][0] != 'const':
             continue
         true_cls = []
@@ -193,6 +201,17 @@ def run(ctx):
             continue
         mro = [c.name for c in py.mro(ci)]
         letter = next((l for c, l in chain if c in mro), None)
+        if isinstance(letter, tuple) and letter[0] == 'classattr':
+            val = None
+            for k in py.mro(ci):
+                binds = [st for st in k.node.body if isinstance(st, (ast.Assign, ast.AnnAssign)) and st.value is not None
+                         and any(isinstance(t, ast.Name) and t.id == letter[1] for t in (st.targets if isinstance(st, ast.Assign) else [st.target]))]
+                if binds:
+                    val = binds[-1].value.value if isinstance(binds[-1].value, ast.Constant) else None
+                    break
+            # an instance attribute of that name set by a method would shadow the class constant
+            shadow = any(isinstance(x, ast.Attribute) and x.attr == letter[1] and isinstance(x.ctx, ast.Store) for k in py.mro(ci) for x in ast.walk(k.node))
+            letter = None if shadow else val
         letters[cls] = letter
         ctx.ob('statement-letter', cls, letter is not None and letter != '?',
                f'{cls} gets the statement letter {letter!r} from get_statement_type (printed as `$?`)', py.where(AST, gst))
@@ -809,6 +828,33 @@ def slice_closure(ctx, py: PyRepo):
             arg = arg.elt                 # extending by a comprehension emits its element once per iteration
         if isinstance(arg, ast.Call) and isinstance(arg.func, ast.Name) and arg.func.id in ('ConstantStatement', 'VariableStatement', 'DisjointStatement'):
             emitted.append((top_index[id(n)], arg.func.id, {'decl:' + arg.func.id}, False, lp, n))
+            # the `$c` / `$v` statement declares the WHOLE set that was collected (every constant / variable of the needed statements)
+            if arg.func.id in ('ConstantStatement', 'VariableStatement') and len(arg.args) == 1 and lp is None:
+                S_ = VC if arg.func.id == 'ConstantStatement' else VM
+
+                def whole(e):
+                    """True: every element of S_ once, in some order; False: a recognised part of it; None: not read"""
+                    if isinstance(e, ast.Name):
+                        return True if e.id == S_ else None
+                    if isinstance(e, ast.Call) and isinstance(e.func, ast.Name) and e.func.id in ('tuple', 'list', 'sorted', 'frozenset', 'set', 'reversed') and e.args:
+                        return whole(e.args[0])
+                    if isinstance(e, ast.Call) and isinstance(e.func, ast.Name) and e.func.id == 'map' and len(e.args) == 2:
+                        return whole(e.args[1])
+                    if isinstance(e, ast.Call) and isinstance(e.func, ast.Name) and e.func.id == 'filter':
+                        return False if any(isinstance(x, ast.Name) and x.id == S_ for x in ast.walk(e)) else None
+                    if isinstance(e, ast.Subscript) and isinstance(e.slice, ast.Slice):
+                        if e.slice.lower is None and e.slice.upper is None:
+                            return whole(e.value)
+                        return False if any(isinstance(x, ast.Name) and x.id == S_ for x in ast.walk(e.value)) else None
+                    if isinstance(e, (ast.GeneratorExp, ast.ListComp, ast.SetComp)) and len(e.generators) == 1:
+                        w = whole(e.generators[0].iter)
+                        return False if (w is not None and e.generators[0].ifs) else w
+                    return None
+                w = whole(arg.args[0])
+                if w is not None:
+                    ctx.ob('slice-closure', f'declares-the-whole-set:{arg.func.id}', w,
+                           f'`{ast.unparse(arg)[:90]}` declares only part of `{S_}`: a symbol of a needed statement stays undeclared (an undeclared '
+                           f'variable is read as a constant, an undeclared constant makes the slice unparsable)', py.where(SLICER, n))
         elif isinstance(arg, ast.Call) and isinstance(arg.func, ast.Name) and arg.func.id == 'Block' and len(arg.args) == 1:
             orgs = iter_origins(arg.args[0])
             elts = arg.args[0].elts if isinstance(arg.args[0], (ast.Tuple, ast.List)) else []
@@ -822,8 +868,11 @@ def slice_closure(ctx, py: PyRepo):
             # ... and nothing that is needed is passed over: a kept statement that the proof names, and the floating hypothesis of a
             # variable in use, IS emitted (every path on which one of the two holds reaches the emission)
             skipped = []
+            # every emission of the loop's statement counts (`if named: emit elif float-in-use: emit` has two)
+            same = [m_ for m_ in _own_nodes(fn) if isinstance(m_, ast.Call) and ast.unparse(m_.func) == ast.unparse(n.func) and m_.args
+                    and isinstance(m_.args[-1], ast.Name) and m_.args[-1].id == arg.id and loop_of.get(id(m_)) is lp]
             for sp in astpaths.paths(lp.body):
-                if sp.end == 'raise' or any(any(x is n for x in ast.walk(a)) for a in sp.actions):
+                if sp.end == 'raise' or any(any(x is m_ for m_ in same for x in ast.walk(a)) for a in sp.actions):
                     continue
                 true_ = [c for c, b in sp.conds if b]
                 if any(re.fullmatch(rf'{key} in (\w+)', c) for c in true_):
@@ -938,6 +987,77 @@ def slicer_helpers(ctx, py: PyRepo):
             v = v[2][1]
         return v
 
+    def by_position(v):
+        """constructor calls of the slicer's statement classes with their keyword arguments put in field order"""
+        if not isinstance(v, tuple):
+            return v
+        v = tuple(by_position(x) for x in v)
+        if len(v) == 4 and v[0] == 'call' and isinstance(v[1], tuple) and v[1][:1] == ('name',) and v[3]:
+            try:
+                ci_ = py.cls(v[1][1], AST)
+            except Exception:
+                return v
+            names = []
+            for k_ in reversed(py.mro(ci_)):
+                names += [f for f, _t in k_.fields if f not in names]
+            kw = dict(v[3])
+            rest = names[len(v[2]):]
+            if set(kw) <= set(rest) and rest[:len(kw)] == [n_ for n_ in rest if n_ in kw][:len(kw)] and set(rest[:len(kw)]) == set(kw):
+                return ('call', v[1], tuple(v[2]) + tuple(kw[n_] for n_ in rest[:len(kw)]), ())
+        return v
+
+    def partition_as_find(v, conds):
+        """str.partition on a one-character separator written with find and slices (the spelling the rule is stated in):
+             (s.partition(x)[2] if s.partition(x)[1] else s)      = s[s.find(x) + 1:]              (find gives -1 when x is absent)
+           and, where the path has established that the separator was found (s.partition(y)[1] is true),
+             s.partition(y)[0] = s[:s.find(y)]     s.partition(y)[2] = s[s.find(y) + 1:]
+           then a slice of a tail slice is taken from the whole string: P[a:][:P[a:].find(y)] = P[a:P.find(y, a)] and
+           P[a:][P[a:].find(y) + 1:] = P[P.find(y, a) + 1:]  (a >= 0, y found in P[a:])"""
+        found = {c for c, b in conds if b is True}
+
+        def part(t):
+            return isinstance(t, tuple) and len(t) == 4 and t[0] == 'call' and isinstance(t[1], tuple) and t[1][0] == 'attr' and t[1][2] == 'partition' \
+                and len(t[2]) == 1 and t[2][0][0] == 'const' and isinstance(t[2][0][1], str) and len(t[2][0][1]) == 1 and not t[3]
+
+        def go(t):
+            if not isinstance(t, tuple):
+                return t
+            # the conditional tail first (its test is the raw partition item)
+            if len(t) == 4 and t[0] == 'ifexp' and isinstance(t[1], tuple) and t[1][:1] == ('item',) and part(t[1][1]) and t[1][2] == 1 \
+                    and t[2] == ('item', t[1][1], 2) and t[3] == t[1][1][1][1]:
+                s_ = go(t[3])
+                x = t[1][1][2][0]
+                return go(('sub', s_, ('slice', ('binop', 'Add', ('call', ('attr', s_, 'find'), (x,), ()), ('const', 1)), None, None)))
+            if len(t) == 3 and t[0] == 'item' and part(t[1]) and t[2] in (0, 2) and ('item', t[1], 1) in found:
+                s_ = go(t[1][1][1])
+                y = t[1][2][0]
+                j = ('call', ('attr', s_, 'find'), (y,), ())
+                sl = ('slice', None, j, None) if t[2] == 0 else ('slice', ('binop', 'Add', j, ('const', 1)), None, None)
+                return go(('sub', s_, sl))
+            t = tuple(go(x) for x in t)
+            # P[a:][lo:hi] with lo / hi built from P[a:].find(y)
+            if len(t) == 3 and t[0] == 'sub' and isinstance(t[2], tuple) and t[2][:1] == ('slice',) and isinstance(t[1], tuple) and t[1][:1] == ('sub',) \
+                    and isinstance(t[1][2], tuple) and t[1][2][:1] == ('slice',) and t[1][2][2] is None and t[1][2][3] is None and t[1][2][1] is not None \
+                    and t[2][3] is None:
+                P_, a = t[1][1], t[1][2][1]
+                tail = t[1]
+
+                def shift(e):
+                    # an index into the tail -> the index into P
+                    if isinstance(e, tuple) and len(e) == 4 and e[0] == 'call' and e[1] == ('attr', tail, 'find') and len(e[2]) == 1:
+                        return ('call', ('attr', P_, 'find'), (e[2][0], a), ())
+                    if isinstance(e, tuple) and e[:2] == ('binop', 'Add') and e[3] == ('const', 1):
+                        inner = shift(e[2])
+                        return None if inner is None else ('binop', 'Add', inner, ('const', 1))
+                    return None
+                lo, hi = t[2][1], t[2][2]
+                lo2 = a if lo is None else shift(lo)
+                hi2 = None if hi is None else shift(hi)
+                if lo2 is not None and (hi is None or hi2 is not None):
+                    return ('sub', P_, ('slice', lo2, hi2, None))
+            return t
+        return go(v)
+
     # --- deconstruct_compressed_proof
     fn = mi.functions.get('deconstruct_compressed_proof')
     if fn is not None and len(fn.args.args) == 1:
@@ -946,7 +1066,7 @@ def slicer_helpers(ctx, py: PyRepo):
         END = ('call', ('attr', P, 'find'), (('const', ')'), BEGIN), ())
         want = ('tuple', (('call', ('name', 'tuple'), (('call', ('attr', ('sub', P, ('slice', BEGIN, END, None)), 'split'), (), ()),), ()),
                           ('sub', P, ('slice', ('binop', 'Add', END, ('const', 1)), None, None))))
-        rets = [p.end[1] for p in _PE().paths(fn) if p.end[0] == 'return']
+        rets = [partition_as_find(p.end[1], p.conds) for p in _PE().paths(fn) if p.end[0] == 'return']
         if rets:
             ctx.ob('slice-closure', 'helpers/labels-between-the-parentheses', rets == [want],
                'deconstruct_compressed_proof must return (the words of proof[find("(") + 1 : find(")", begin)], proof[end + 1:]); it returns '
@@ -990,7 +1110,7 @@ def slicer_helpers(ctx, py: PyRepo):
             empty = any((c == A and b is False) or (c == ('call', ('name', 'len'), (A,), ()) and b is False)
                         or (c == ('cmp', '==', ('call', ('name', 'len'), (A,), ()), ('const', 0)) and b is True) for c, b in p.conds)
             want = AX if empty else ('call', ('name', 'Block'), (('tuple', (('star', A), AX)),), ())
-            if p.end[1] != want:
+            if by_position(p.end[1]) != want:
                 probs.append(f'with{"out" if empty else ""} antecedents it returns `{_sh(p.end[1])[:80]}`')
         if any(p.end[0] == 'return' for p in _PE().paths(fn)):
           ctx.ob('slice-closure', 'helpers/registered-axiom-is-the-lemma', not probs,
@@ -1056,6 +1176,40 @@ def slicer_helpers(ctx, py: PyRepo):
                'the set of labels a slice is built from must be extended by the notation axiom of every constructor axiom the proof names '
                f'({cands[0].name}) and by the syntax dependencies (`{P2}`) of all of them: '
                + ('the notation axioms are not added' if not ok_sugar else 'the syntax dependencies are not added'), py.where(SLICER, sup_fn))
+        # ... for EVERY label of the set: the notation axioms are looked up for each element of the label set itself, and the syntax
+        # dependencies are added in a loop over that set (a slice / filter of it leaves the notation axiom or the dependencies of the
+        # skipped labels out of the slice)
+        if ok_sugar and ok_deps:
+            T_ = label_sets[0]
+            probs_ = []
+            n_sites = 0
+            for f_ in users:
+                parents_ = {c: p_ for p_ in ast.walk(f_) for c in ast.iter_child_nodes(p_)}
+                for c_ in [x for x in ast.walk(f_) if isinstance(x, ast.Name) and x.id == cands[0].name and isinstance(x.ctx, ast.Load)]:
+                    par = parents_.get(c_)
+                    over = None
+                    if isinstance(par, ast.Call) and isinstance(par.func, ast.Name) and par.func.id == 'map' and len(par.args) == 2 and par.args[0] is c_:
+                        over = par.args[1]
+                    elif isinstance(par, ast.Call) and par.func is c_:
+                        comp = parents_.get(par)
+                        if isinstance(comp, (ast.GeneratorExp, ast.ListComp, ast.SetComp)) and comp.elt is par and len(comp.generators) == 1 \
+                                and par.args and isinstance(par.args[0], ast.Name) and isinstance(comp.generators[0].target, ast.Name) \
+                                and par.args[0].id == comp.generators[0].target.id:
+                            over = comp.generators[0].iter if not comp.generators[0].ifs else ast.Constant(value='<filtered>')
+                    if over is None:
+                        continue
+                    n_sites += 1
+                    if not (isinstance(over, ast.Name) and over.id == T_):
+                        probs_.append(f'the notation axioms are looked up for `{ast.unparse(over)[:50]}`, not for every label in `{T_}`')
+                for lp_ in [x for x in ast.walk(f_) if isinstance(x, ast.For)]:
+                    if any(isinstance(a_, ast.AugAssign) and isinstance(a_.target, ast.Name) and a_.target.id == T_ and re.search(rf'\b{P2}\b', ast.unparse(a_.value))
+                           for a_ in ast.walk(lp_)):
+                        n_sites += 1
+                        if not (isinstance(lp_.iter, ast.Name) and lp_.iter.id == T_):
+                            probs_.append(f'the syntax dependencies are added for `{ast.unparse(lp_.iter)[:50]}`, not for every label in `{T_}`')
+            if n_sites:
+                ctx.ob('slice-closure', 'label-closure/for-every-label', not probs_,
+                       '; '.join(probs_) + ' - the slice lacks the notation axiom or the syntax of a label its proof names', py.where(SLICER, sup_fn))
     # --- the constant scan
     from ..core import astpaths as AP
     fn = mi.functions.get('get_constants')
@@ -1341,14 +1495,19 @@ def arguments_by_name(ctx, py: PyRepo):
             ps = params_of(c.func.id) or (params_of_in(c.func.id, _mname) if _mname != SLICER else None)
             if not ps or any(isinstance(a, ast.Starred) for a in c.args) or len(c.args) > len(ps):
                 continue
-            names = [spelled(a) for a in c.args]
+            # parameter -> argument, positional and keyword arguments alike
+            bound = dict(zip(ps, c.args))
+            if any(k_.arg is None or k_.arg not in ps or k_.arg in bound for k_ in c.keywords):
+                continue
+            bound.update({k_.arg: k_.value for k_ in c.keywords})
+            names = [spelled(bound[p_]) if p_ in bound else None for p_ in ps]
             wrong = []
             for i, nm in enumerate(names):
                 if nm is not None and nm in ps and ps.index(nm) != i and ps[i] != nm:
                     j = ps.index(nm)
                     other = names[j] if j < len(names) else None
                     if other != nm:
-                        wrong.append(f'argument {i + 1} `{ast.unparse(c.args[i])}` is bound to `{ps[i]}` although the callee has a parameter `{nm}`')
+                        wrong.append(f'argument `{ast.unparse(bound[ps[i]])}` is bound to `{ps[i]}` although the callee has a parameter `{nm}`')
             if any(nm in ps for nm in names if nm):
                 n += 1
                 ctx.ob('slice-closure', f'arguments-by-name/{qn.split(".")[-1]}->{c.func.id}@{c.lineno - f.lineno}', not wrong,
